@@ -30,6 +30,7 @@ type c05case struct {
 	SameRole bool   `json:"same_role"`
 	UC       bool   `json:"use_candidate"`
 	Phase    string `json:"phase"`            // "fresh" | "pending" (X has checks outstanding) | "connected"
+	Src      string `json:"src,omitempty"`    // "" the signalled remote candidate | "unknown" an address that is not (yet) a remote candidate
 	Layout   string `json:"layout,omitempty"` // "" pion's own attribute order | "role-last" role attribute right before MESSAGE-INTEGRITY | "role-last-nofp" the same without FINGERPRINT
 }
 
@@ -45,6 +46,18 @@ func c05run(t *testing.T, cs c05case) (problems []string, outcome string) {
 			sw.tick()
 		case "connected":
 			sw.establish()
+		case "disconnected": // connected, then silent beyond the disconnected timeout
+			sw.establish()
+			time.Sleep(defaultDisconnectedTimeout + 100*time.Millisecond)
+			sw.tick()
+			sw.purge()
+			if a.connectionState != ConnectionStateDisconnected {
+				panic("c05: the agent did not become Disconnected: " + a.connectionState.String())
+			}
+		}
+		src := sw.remotes[0].addr.String()
+		if cs.Src == "unknown" {
+			src = "10.0.1.77:2077"
 		}
 		before := sw.agentState()
 		selBefore := a.getSelectedPair()
@@ -52,7 +65,7 @@ func c05run(t *testing.T, cs c05case) (problems []string, outcome string) {
 		wasControlling := a.isControlling.Load()
 		req := sw.peerRequest(peerReqOpts{sameRole: cs.SameRole, tie: cs.TieP, tieSet: true, uc: cs.UC, nom: -1, prio: 0,
 			roleLast: cs.Layout != "", noFP: cs.Layout == "role-last-nofp"})
-		sw.inject(sw.x.socks[0], sw.remotes[0].addr.String(), req)
+		sw.inject(sw.x.socks[0], src, req)
 		emitted := sw.sentLog[nSent:]
 		var classes []string
 		for _, d := range emitted {
@@ -98,7 +111,7 @@ func c05run(t *testing.T, cs c05case) (problems []string, outcome string) {
 				si := describeSTUN(d.data)
 				if si.class == "error response" && si.code == 487 {
 					n487++
-					if d.dst != sw.remotes[0].addr.String() || d.srcSock != sw.x.socks[0].name {
+					if d.dst != src || d.srcSock != sw.x.socks[0].name {
 						problems = append(problems, "487 sent to the wrong place: "+d.describe())
 					}
 					if describeSTUN(req).tx != si.tx {
@@ -138,13 +151,14 @@ func c05run(t *testing.T, cs c05case) (problems []string, outcome string) {
 
 			return strings.Join(keep, " ")
 		}
-		if strip(before) != strip(after) {
+		// (a request from an address that is not a remote candidate yet may leave a peer-reflexive candidate and its pair behind)
+		if cs.Src != "unknown" && strip(before) != strip(after) {
 			problems = append(problems, fmt.Sprintf("agent state changed beyond the role: before %q after %q", before, after))
 		}
 		// the role attribute of the next request reflects the outcome
 		{
 			n := len(sw.sentLog)
-			if cs.Phase == "connected" {
+			if cs.Phase == "connected" || cs.Phase == "disconnected" {
 				// the next request of a connected agent is the keepalive check on the selected pair
 				time.Sleep(defaultKeepaliveInterval + 100*time.Millisecond)
 			}
@@ -182,7 +196,7 @@ func checkC05(c *runCtx) {
 	cases := 0
 	t0table := time.Now()
 	for _, role := range []string{"controlling", "controlled"} {
-		for _, phase := range []string{"fresh", "pending", "connected"} {
+		for _, phase := range []string{"fresh", "pending", "connected", "disconnected"} {
 			for _, tx := range B {
 				for _, tp := range B {
 					if c.quick() && phase != "fresh" && !(tx == tp || tx+1 == tp || tp+1 == tx || tx == B[0] || tp == B[len(B)-1]) {
@@ -193,18 +207,23 @@ func checkC05(c *runCtx) {
 							if layout != "" && !(tx == tp || tx+1 == tp || tp+1 == tx) {
 								continue // the attribute order does not interact with the comparison: the adjacent and equal pairs suffice
 							}
-							cs := c05case{Role: role, TieX: tx, TieP: tp, SameRole: true, UC: uc, Phase: phase, Layout: layout}
-							probs, out := c05run(c.t, cs)
-							cases++
-							rel := "<"
-							if tx == tp {
-								rel = "="
-							} else if tx > tp {
-								rel = ">"
-							}
-							outcomes.note(role + "/" + phase + "/" + rel + "/" + out)
-							for _, p := range probs {
-								c.violation("", fmt.Sprintf("role=%s phase=%s tieX=%#x tieP=%#x uc=%v layout=%q: %s", role, phase, tx, tp, uc, layout, p), cs)
+							for _, src := range []string{"", "unknown"} {
+								if src != "" && (layout != "" || !(tx == tp || tx+1 == tp || tp+1 == tx)) {
+									continue // the source does not interact with the comparison either
+								}
+								cs := c05case{Role: role, TieX: tx, TieP: tp, SameRole: true, UC: uc, Phase: phase, Layout: layout, Src: src}
+								probs, out := c05run(c.t, cs)
+								cases++
+								rel := "<"
+								if tx == tp {
+									rel = "="
+								} else if tx > tp {
+									rel = ">"
+								}
+								outcomes.note(role + "/" + phase + "/" + rel + "/" + out)
+								for _, p := range probs {
+									c.violation("", fmt.Sprintf("role=%s phase=%s tieX=%#x tieP=%#x uc=%v layout=%q src=%q: %s", role, phase, tx, tp, uc, layout, src, p), cs)
+								}
 							}
 						}
 					}
